@@ -158,8 +158,21 @@ class Explorer:
         self.atom_of = atom_of or (lambda e: None)
         self.tracked = set(tracked or ())
         self.frozen = set(frozen or ())
+        # a local assigned once from an attribute path is another name for that path (`cfg = self.cfg`) -- unless this
+        # function itself assigns the path (`alive = self.alive` ... `self.alive = False`): then it is a snapshot
+        stored = set()
+        for n in ast.walk(func.node):
+            if isinstance(n, ast.Attribute) and isinstance(n.ctx, (ast.Store, ast.Del)):
+                q = self.repo.resolve(func.module, func, n)
+                if q:
+                    stored.add(q)
+        self.snapshots = set()
+        for nm, expr in func.aliases.items():
+            q = self.repo.resolve(func.module, func, expr)
+            if q and any(q == sp or q.startswith(sp + ".") for sp in stored):
+                self.snapshots.add(nm)
         if track_locals:
-            self.tracked |= set(func.locals) - set(func.aliases)
+            self.tracked |= (set(func.locals) - set(func.aliases)) | self.snapshots
         self.max_states = max_states
         self.follow_implicit_exc = follow_implicit_exc
         self.unknown_tests = []       # tests that evaluated to UNKNOWN (for diagnostics)
@@ -170,6 +183,16 @@ class Explorer:
         k = self.atom_of(e)
         if k is not None:
             return k
+        if isinstance(e, ast.Name) and e.id in self.snapshots:
+            return e.id
+        if isinstance(e, ast.Attribute):
+            root = e
+            while isinstance(root, ast.Attribute):
+                root = root.value
+            if isinstance(root, ast.Name) and root.id in self.snapshots:
+                # attribute of a snapshot local: its own key, not the aliased path
+                from .astutil import dotted as _d
+                return _d(e)
         if isinstance(e, (ast.Name, ast.Attribute)):
             return self.repo.resolve(self.func.module, self.func, e)
         return None
